@@ -109,6 +109,18 @@ func getOneLinePlusRef(samLine biogosam.Record, reference []byte, includeInserti
 
 	CIGAR := samLine.Cigar
 
+	// the reference-consuming operations index into the reference: an alignment that runs past its
+	// end is not an alignment to this reference
+	refSpan := 0
+	for _, op := range CIGAR {
+		if op.Type().Consumes().Reference == 1 {
+			refSpan += op.Len()
+		}
+	}
+	if POS+refSpan > len(reference) {
+		return []byte{}, []byte{}, errors.New("alignment of " + samLine.Name + " extends beyond the end of the reference")
+	}
+
 	newSeqArray := make([]byte, POS)
 	for i, _ := range newSeqArray {
 		newSeqArray[i] = '*'
